@@ -220,7 +220,7 @@ class C04(Property):
         'merge_type_source', 'merge_hash_eq', 'merge_match_unchanged', 'merge_add_union',
         'merge_min_is_least', 'merge_max_is_greatest', 'merge_replace_highest_version',
         'merge_set_first_nonempty', 'merge_any_is_some_instance', 'merge_parents_union',
-        'merge_objects_from_instances', 'merge_single_valued', 'merge_mandatory', 'conflict_iff',
+        'merge_objects_from_instances', 'merge_single_valued', 'merge_mandatory', 'conflict_iff', 'merge_spec_extension',
     )
     level_text = ('Lean 4 theorems over the executable model of EventType.merge_events / _check_merge_conflict: '
                   'for every event type, every group of colliding events and every strategy the merged event has '
